@@ -36,10 +36,16 @@ type c19Case struct {
 	// FailFirst: before the judged transfer, another metadata-only receive (other tree, other destination) is
 	// aborted by this stream failure in the same process
 	FailFirst *xfer.Fault `json:"failfirst,omitempty"`
+	// Scribble: the selector rewrites the stat it is handed (it is a FilterFunc); only the listing is judged then:
+	// its records are the stats as announced
+	Scribble bool `json:"scribble,omitempty"`
 }
 
 func (c c19Case) String() string {
 	s := fmt.Sprintf("src=%s select=%v prior=%s mem=%v big=%d@%d merge=%v", c.Src, c.Select, c.Prior, c.Mem, c.Big, c.BigAt, c.Merge)
+	if c.Scribble {
+		s += " selector-rewrites-stat"
+	}
 	if c.FailFirst != nil {
 		s += fmt.Sprintf(" after-aborted-receive(%s@%d)", c.FailFirst.End, c.FailFirst.K)
 	}
@@ -123,7 +129,12 @@ func judgeC19(c c19Case) (string, string) {
 		os.Mkdir(other, 0755)
 		xfer.RunFault(memfs.New(lost), other, fsutil.ReceiveOpt{MetadataOnly: func(string, *types.Stat) bool { return true }}, nil, *c.FailFirst)
 	}
-	opt := fsutil.ReceiveOpt{Merge: c.Merge, MetadataOnly: func(p string, st *types.Stat) bool { return sel[p] }}
+	opt := fsutil.ReceiveOpt{Merge: c.Merge, MetadataOnly: func(p string, st *types.Stat) bool {
+		if c.Scribble {
+			st.ModTime, st.Uid, st.Mode = 1, 0, st.Mode&^uint32(os.ModeSetuid)|0o200
+		}
+		return sel[p]
+	}}
 	res := xfer.Run(sfs, dst, opt, nil)
 	if res.TimedOut {
 		return "timeout", "transfer timed out"
@@ -160,6 +171,9 @@ func judgeC19(c c19Case) (string, string) {
 		if !recs[i].EqualVT(announced[i]) && !(statEqNoX(recs[i], announced[i]) && xEq(recs[i].Xattrs, announced[i].Xattrs)) {
 			return "listing-record", fmt.Sprintf("record %d is %s, announced %s", i, statString(recs[i]), statString(announced[i]))
 		}
+	}
+	if c.Scribble {
+		return "", "" // what the selector did to the entries it selected is its own business
 	}
 	// destination = selected entries + the ancestors they need
 	var want fsmodel.Tree
@@ -267,6 +281,24 @@ func c19Cases(tier string) []c19Case {
 					}
 				}
 			}
+		}
+	}
+	// selections under unselected directories, several levels, siblings before and after: every selector subset
+	nest := fsmodel.Tree{{Path: "x", Kind: fsmodel.Dir, Perm: 0755, Mtime: fsmodel.T0}, {Path: "x/a", Kind: fsmodel.File, Perm: 0644, Mtime: fsmodel.T0 + 1, Data: []byte("a")},
+		{Path: "x/m", Kind: fsmodel.Dir, Perm: 0755, Mtime: fsmodel.T0 + 2}, {Path: "x/m/q", Kind: fsmodel.File, Perm: 0644, Mtime: fsmodel.T0 + 3, Data: []byte("q")},
+		{Path: "x/n", Kind: fsmodel.Dir, Perm: 0755, Mtime: fsmodel.T0 + 4}, {Path: "x/n/f", Kind: fsmodel.File, Perm: 0644, Mtime: fsmodel.T0 + 5, Data: []byte("f")},
+		{Path: "y", Kind: fsmodel.Dir, Perm: 0755, Mtime: fsmodel.T0 + 6}, {Path: "y/z", Kind: fsmodel.File, Perm: 04755, UID: 5, Mtime: fsmodel.T0 + 7, Data: []byte("z")}}
+	np := nest.Paths()
+	for mask := 0; mask < 1<<len(np); mask++ {
+		var sel []string
+		for i, p := range np {
+			if mask&(1<<i) != 0 {
+				sel = append(sel, p)
+			}
+		}
+		out = append(out, c19Case{Src: nest, Select: sel, Prior: "empty", Mem: mask%2 == 0})
+		if mask%5 == 0 {
+			out = append(out, c19Case{Src: nest, Select: sel, Prior: "empty", Mem: true, Scribble: true})
 		}
 	}
 	// hard links: selectors closed under "link source of a selected link"
